@@ -21,7 +21,7 @@ RULE = ("cases from rng(seed, 3, 0, i): well-posed cluster graphs (1-4 clusters 
 REQ = ["eval:gn-step-applied", "eval:fixed-vertex-zero-increment", "eval:solver-boundary-H", "eval:solver-boundary-rhs", "class:parallel_edges", "class:edge_high_index_first",
        "class:mixed_dimensions", "class:custom_unary", "class:custom_ternary", "class:custom_numeric_jacobian", "class:fix_first_pose=True", "class:fix_first_pose=False",
        "class:several_fixed_per_cluster", "class:landmark_offset_rotated", "class:shared_pose_storage", "class:exact_special_values", "class:second_call_after_edits", "eval:second-call-equals-fresh-graph", "class:fixed_flags_as_int", "class:landmark_offset_zero_translation_rotated", "eval:K-iterations-equal-K-single-steps", "class:information_scales:per_edge",
-       "class:information_scales:all_tiny", "class:graph_with_100+_vertices", "class:evaluated_then_moved_in_place", "class:edges_prebound_to_stale_vertices", "class:start_within_1e-7_of_the_optimum"]
+       "class:information_scales:all_tiny", "class:graph_with_100+_vertices", "class:evaluated_then_moved_in_place", "class:edges_prebound_to_stale_vertices", "class:start_within_1e-7_of_the_optimum", "class:information_sparse:zero_rows_and_blocks", "class:information_sparse:offdiagonals_cancel_in_sum", "class:second_call_after_a_converged_first_call"]
 PLAN = {
     "quick": {"cases": 1600, "soft_s": 70, "min_nontrivial": 400, "require": REQ},
     "thorough": {"cases": 60000, "soft_s": 1200, "min_nontrivial": 10000, "require": REQ},
@@ -173,19 +173,37 @@ def second_call_check(ctx, spec, labels, rng, case):
     """History: one optimize() call, then fixed flags / information changed on the same objects, then a second call: the second call must be
     exactly the Gauss-Newton step of the *current* problem (compared with a fresh graph in the same state through one_step_check's oracle)."""
     g = M.build(spec)
+    to_convergence = bool(rng.random() < 0.5)
     try:
-        M.quiet_optimize(g, max_iter=1, tol=0.0, fix_first_pose=False)
+        if to_convergence:
+            r0 = M.quiet_optimize(g, max_iter=30, tol=1e-9, fix_first_pose=False)
+            if r0.converged:
+                ctx.count("class:second_call_after_a_converged_first_call")
+        else:
+            M.quiet_optimize(g, max_iter=1, tol=0.0, fix_first_pose=False)
     except Exception:
         raise Skip("first call raised")
     edits = []
     free_v = [v for v in g._vertices if not v.fixed]
-    if len(free_v) > 1:
+    if len(free_v) > 1 and rng.random() < 0.6:
         free_v[int(rng.integers(len(free_v)))].fixed = True
         edits.append("vertex newly fixed")
     for e in g._edges:
-        if rng.random() < 0.3:
+        u = rng.random()
+        if u < 0.3:
             e.information = e.information * float(10 ** rng.uniform(-1, 1))
             edits.append("information replaced")
+        elif u < 0.5 and isinstance(e.estimate, M.BasePose):
+            ke = M.kind(e.estimate)
+            e.estimate = M.mkpose(ke, gen.perturb(rng, ke, M.fl(e.estimate), 0.3, 0.1))
+            edits.append("measurement replaced")
+    if rng.random() < 0.4:
+        fv = [v for v in g._vertices if not v.fixed and all(math.isfinite(x) for x in M.fl(v.pose))]
+        if fv:
+            v = fv[int(rng.integers(len(fv)))]
+            kv = M.kind(v.pose)
+            v.pose[:] = M.fl(M.mkpose(kv, gen.perturb(rng, kv, M.fl(v.pose), 0.3, 0.1)))
+            edits.append("pose written in place")
     now = gen.copy_spec(spec)
     now.pop("share", None)
     for v, lv in zip(now["vertices"], g._vertices):
@@ -193,6 +211,8 @@ def second_call_check(ctx, spec, labels, rng, case):
         v["fixed"] = bool(lv.fixed)
     for e, le in zip(now["edges"], g._edges):
         e["info"] = np.asarray(le.information).tolist()
+        if isinstance(le.estimate, M.BasePose):
+            e["est"] = M.fl(le.estimate)
     if not all(math.isfinite(x) for v in now["vertices"] for x in v["pose"]):
         raise Skip("non-finite state after the first call")
     fresh = M.build(now)
@@ -224,6 +244,10 @@ def run_case(ctx, i, rng):
     else:
         spec, labels = gen.cluster_graph(rng, size=((30, 60) if large else (2, 12 if big else 6)), alias=bool(rng.random() < 0.25), special=bool(rng.random() < 0.3), wide_info=wide)
     labels.add("fix_first_pose=%s" % ffp)
+    if rng.random() < 0.12:
+        # partial information: unconstrained axes (zero rows), independent axes, small dense blocks, off-diagonals that cancel in sum
+        for lab in gen.sparsify_information(rng, spec["edges"]):
+            labels.add("information_sparse:" + lab)
     if rng.random() < 0.12 and not large:
         # a start that is already within 1e-12..1e-7 (relative to the coordinates) of the optimum: the Gauss-Newton step is tiny, and it is still the step
         try:
